@@ -132,6 +132,28 @@ Theorem C08_terminated_runs_are_runs_of_atomic_sections :
 Proof. exact terminated_runs_are_atomic. Qed.
 Print Assumptions C08_terminated_runs_are_runs_of_atomic_sections.
 
+(* the generated tables have the shape that theorem needs beyond the discipline: every mutex other than
+   the object's outer one is taken only inside an exclusive outer section and released before it; the one
+   hand-off happens holding exactly the outer lock shared, into a goroutine that starts none; goroutines
+   started inside a section are started under the exclusive lock and consist of blocking sites only;
+   goroutines started outside any section (escaping closures of BlockWriteOpener) are inert *)
+Theorem C08_tables_have_the_shape_of_the_reduction :
+  Forall (fun I => reduction_shape_violations I = []) facts.
+Proof. exact facts_reduction_shape. Qed.
+Print Assumptions C08_tables_have_the_shape_of_the_reduction.
+
+(* ... and for resumptions that start no goroutine, the discipline [pok] follows from [ok] and that shape
+   check on their act traces (the things computed on the generated tables) *)
+Theorem C08_trace_discipline_gives_program_discipline :
+  forall (V R : Type) (exempt : nat -> bool) (guard : nat -> nat) (v0 : V)
+         (listed : nat -> bool) (tbl : list (held * path)) (p : prog V R) (ho : bool) (h : held),
+    nospawn V R p ->
+    (forall t, ptrace V R p t ->
+       ok guard exempt listed tbl h t = true /\ shape_code tbl h t = true) ->
+    pok V R exempt guard ho h p.
+Proof. exact pok_of_traces. Qed.
+Print Assumptions C08_trace_discipline_gives_program_discipline.
+
 (* Linearizability against the map specification of C04.  [impl_step hdrdec f] is StoreSpec's dispatcher
    onto the functions of Store.v that model blockstore.ReadWrite (f = FBs) and storage.StorageCar;
    [StoreSpec.spec_step] is the reference append-only content-addressed map; C04_refines_map proves that
@@ -213,9 +235,11 @@ Print Assumptions C08_deferred_sections_linearizable_wrt_C20_model.
          inside a shared one, goroutines that read never-written fields before their first lock operation,
          inner mutexes under a SHARED outer section or taken without the outer one (none of these occurs
          in the four types; a StorageCar shared between a DeferredCarWriter and direct callers would be the
-         last case).  The discipline [pok] of that theorem is on resumptions; that the generated act
-         traces (on which [ok] is checked) are the traces of resumptions satisfying [pok] -- i.e. that the
-         translator's tables describe the Go methods -- is the translator's soundness, trusted;
+         last case); that the tables stay inside the covered shape is checked:
+         C08_tables_have_the_shape_of_the_reduction.  The discipline [pok] of that theorem is on resumptions;
+         it follows from [ok] + the shape check on their act traces
+         (C08_trace_discipline_gives_program_discipline, for resumptions that start no goroutine); that the
+         generated tables ARE the act traces of the Go methods is the translator's soundness, trusted;
      (3) the atomic step of each critical section is Store.v's function for that operation (impl_step), resp.
          Deferred.d_step: NOT proved -- this is "Store.v models the code", which C04 / C20 sample
          sequentially and the C08 histories sample concurrently (every observed history is replayed through
